@@ -363,6 +363,8 @@ class Runner:
                 getattr(o, mm)(None if op['t'] is None else self.objs[op['t']])
             elif mm == 'dump_tree':
                 o.dump_tree(op['controls'])
+            elif mm == 'seti':
+                o.seti(*op['args'])
             elif mm == 'get':
                 o.get(op['index'], lambda *a: None)
             elif mm == 'getn':
@@ -533,6 +535,9 @@ class Runner:
         self.env['$default_group'] = self.server.default_group.node_id
         self.env['$live_buffer_numbers'] = led.numbers('buffer')
         exp_pre = None
+        if op.get('m') == 'seti' and 'layout' not in op:
+            from vf.c17_gen import SETI_DEFS
+            op['layout'] = SETI_DEFS[op['def']]
         if 'out' not in op:
             # everything the expectation needs is known before the call
             exp_pre = mc.expect(op, self.env)
@@ -726,6 +731,15 @@ class Judge:
             # a sequence (the equivalent list form is sent as a [ ] array)
             wit['manifestation'] = key
             key = 'C17/method/Synth(dict args)/sequence-value-not-sent-as-array'
+        if op and op.get('m') == 'seti' and key.startswith('C17/method/Synth.seti/'):
+            sizes = dict(op.get('layout') or [])
+            offs = [(sizes[nm], off) for nm, off, _v in mc._pairs(op['args'], 3)
+                    if nm in sizes]
+            cls = ('negative-offset' if any(off < 0 for _s, off in offs) else
+                   'offset-equals-size' if any(off == sz for sz, off in offs) else None)
+            if cls:
+                wit['manifestation'] = key
+                key = f'C17/method/Synth.seti/control-outside-the-array-addressed/{cls}'
         if op and isinstance(op.get('target'), dict) and '$lit' in op['target'] \
                 and key.startswith(('C17/method/', 'C17/ledger/', 'C17/ids/')) \
                 and key.rsplit('/', 1)[-1] in ('arg-mismatch', 'unexpected-allocation',
@@ -755,6 +769,8 @@ class Judge:
         got = self.packets[rec['call0']:rec['call1']]
         want = [] if rec['raised'] is not None else exp.packets
         method = exp.method
+        if getattr(exp, 'optional', False) and len(got) == 0:
+            return
         if exp.method == 'Buffer.free_all' and want and not want[0][1]:
             # nothing to free: an empty bundle or no packet at all
             if len(got) == 0:
@@ -784,6 +800,8 @@ class Judge:
 
     def match_sequence(self, rec, want_msgs, msgs, unordered, got):
         method = rec['expect'].method
+        if not msgs and getattr(rec['expect'], 'optional', False):
+            return
         if unordered:
             left = list(msgs)
             missing = []
@@ -1421,4 +1439,37 @@ def run_stream_case(m, server, cap, case, clocks, count, main_lock, wait_limit=8
             count('stream_cases_with_chunks_outside_block')
     count('stream_cases_checked')
     count(f'stream_cases:{kind}:{form}')
+    return None
+
+
+def define_seti_defs(sc3mods_synthdef, layouts):
+    """add()s the definitions of vf/c17_gen.py:SETI_DEFS and verifies that the
+    library's description has the layout the model assumes.  Returns None or
+    a reason (harness assumption broken -> inconclusive, never a verdict)."""
+    from sc3.synth.synthdef import SynthDef
+    from sc3.synth.synthdesc import SynthDescLib
+    from sc3.synth.ugens import SinOsc, Out, Mix
+
+    def ga(out=0, freqs=(440, 550, 660), amp=0.1, pan=0):
+        Out.ar(out, Mix(SinOsc.ar(freqs)) * amp)
+
+    def gb(freqs=(100, 200), amps=(0.1, 0.2, 0.3, 0.4), gate=1):
+        Out.ar(0, Mix(SinOsc.ar(freqs)) * Mix(amps) * gate)
+
+    def gc(a=0, arr=(1, 2, 3, 4, 5), b=(7, 8, 9), c=1):
+        Out.ar(a, Mix(SinOsc.ar(arr)) * Mix(b) * c)
+
+    for name, g in (('vf_seti_a', ga), ('vf_seti_b', gb), ('vf_seti_c', gc)):
+        SynthDef(name, g).add()
+        desc = SynthDescLib.default.at(name)
+        if desc is None:
+            return f'{name}: no description after add()'
+        k = 0
+        for pname, chans in layouts[name]:
+            cn = desc.control_dict.get(pname)
+            if cn is None or cn.index != k or cn.channels != chans:
+                return (f'{name}.{pname}: description says index '
+                        f'{getattr(cn, "index", None)} x {getattr(cn, "channels", None)}, '
+                        f'assumed {k} x {chans}')
+            k += chans
     return None
